@@ -129,6 +129,10 @@ Reasons(r) ==
               \cup (IF RevertsMean(o.reverts, Gp) THEN {} ELSE {"revert_n-reverts"})
          [] k = "split" ->
               (IF CSMeans(o.cs_no, G0, Gm) THEN {} ELSE {"extend-changeset"})
+              \* the joined bundle keeps the older half's original values, so the "values known"
+              \* changeset must mean the same (the API only warns that a consumer cannot rely on it
+              \* when it does not know where the halves came from)
+              \cup (IF CSMeans(o.cs_yes, G0, Gm) THEN {} ELSE {"extend-changeset-yes"})
               \cup (IF RevertsMean(o.reverts, G) THEN {} ELSE {"extend-reverts"})
               \cup (IF ContractsOK(o.cs_no, G0, Gm) THEN {} ELSE {"extend-contracts"})
          [] k = "take_n" ->
@@ -137,6 +141,7 @@ Reasons(r) ==
          [] k = "prepend" ->
               (IF PrependKeeps(o.newer, o.result) THEN {} ELSE {"prepend-overrides"})
               \cup (IF CSMeans(o.result, G0, Gm) THEN {} ELSE {"prepend-meaning"})
+              \cup (IF CSMeans(o.result_yes, G0, Gm) THEN {} ELSE {"prepend-meaning-yes"})
          [] k = "preload" ->
               (IF ReadMeans(o.read1, r.st.cur) THEN {} ELSE {"preload-read"})
               \cup (IF ReadMeans(o.read2, r.st.cur) THEN {} ELSE {"merged-read"})
